@@ -51,6 +51,12 @@ section
 variable {α : Type} [Cmp α]
 @[inline] def ge (a b : α) : Bool := Cmp.le b a
 @[inline] def gt (a b : α) : Bool := Cmp.lt b a
+/-- `a.max(b)` of the float types: the larger one; if one is NaN (incomparable) the other -/
+def fmax (a b : α) : α :=
+  if Cmp.lt a b then b else if Cmp.le b a then a else if Cmp.eq a a then a else b
+/-- `a.min(b)` of the float types: the smaller one; if one is NaN (incomparable) the other -/
+def fmin (a b : α) : α :=
+  if Cmp.lt b a then b else if Cmp.le a b then a else if Cmp.eq a a then a else b
 end
 
 /-- `error::IntervalError` -/
